@@ -72,6 +72,15 @@ def hook(event, args):
 sys.addaudithook(hook)
 STATE0 = module_state()
 
+def _result_digest(src):
+    """What transpiling ``src`` yields, as plain data (firmware text and the Program's build directive)."""
+    try:
+        prog = parse(src)
+        return ("ok", repr(getattr(prog, "target_port", None)), emit(prog))
+    except Exception as exc:  # noqa: BLE001
+        return (type(exc).__name__, str(exc)[:200], "")
+
+
 for line in sys.stdin:
     case = json.loads(line)
     src = case["src"]
@@ -98,6 +107,22 @@ for line in sys.stdin:
     if st != STATE0:
         state_changed = True
         STATE0 = st
-    rec = {"id": case.get("id"), "outcome": outcome, "detail": detail, "wall": round(wall, 4), "events": EVENTS[:6], "state_changed": state_changed}
+    env_dependent = ""
+    if case.get("env_probe"):
+        # the result must not depend on the host: same text under two different environments / working directories
+        saved_env, saved_cwd = dict(os.environ), os.getcwd()
+        try:
+            first = _result_digest(src)
+            for key, value in (("HOME", "/nonexistent-home-b"), ("USERPROFILE", "C:\\\\nobody"), ("USER", "someone"), ("LOGNAME", "someone"), ("TMPDIR", "/nonexistent-tmp"), ("TEMP", "T:\\\\t")):
+                os.environ[key] = value
+            os.chdir("/")
+            second = _result_digest(src)
+            if first != second:
+                env_dependent = f"{first[:2]} vs {second[:2]}"
+        finally:
+            os.environ.clear()
+            os.environ.update(saved_env)
+            os.chdir(saved_cwd)
+    rec = {"id": case.get("id"), "outcome": outcome, "detail": detail, "wall": round(wall, 4), "events": EVENTS[:6], "state_changed": state_changed, "env_dependent": env_dependent}
     sys.stdout.write(json.dumps(rec) + "\n")
     sys.stdout.flush()
